@@ -57,17 +57,18 @@ func canonHTML(b []byte) string {
 type genDoc struct {
 	md, html []byte
 	top      int
+	fdoc     bool
 }
 
 func askDoc(c *Ctx, seed uint64, size int, crlf bool, mask string) (genDoc, bool) {
 	a := c.drv.Ask1(fmt.Sprintf("gendoc\t%d\t%d\t%s\t%s", seed, size, b01(crlf), mask))
 	parts := strings.Fields(a)
-	if len(parts) != 3 {
+	if len(parts) != 4 {
 		return genDoc{}, false
 	}
 	var top int
 	fmt.Sscan(parts[2], &top)
-	return genDoc{md: unhx(parts[0]), html: unhx(parts[1]), top: top}, true
+	return genDoc{md: unhx(parts[0]), html: unhx(parts[1]), top: top, fdoc: parts[3] == "1"}, true
 }
 
 // c06Check returns "" if the canonical document renders to the HTML it denotes.
